@@ -31,7 +31,7 @@ ANCHORS = [
     "acnportal.acnsim.network.charging_network:ChargingNetwork.is_feasible",
 ]
 REQUIRED = ["accepted_schedules_judged", "boundary_points", "vertex_points", "structure_walks", "site:caltech", "site:caltech-via-deprecated-alias", "site:jpl", "site:office001",
-            "evse:basic", "evse:real", "cap:default", "cap:scaled", "sim_columns_judged", "linear_mode_points", "multi_period_matrices", "multi_period_accepted", "transformer_power_within_1pct_of_rating",
+            "evse:basic", "evse:real", "cap:default", "cap:scaled", "cap:zero", "sim_columns_judged", "linear_mode_points", "multi_period_matrices", "multi_period_accepted", "transformer_power_within_1pct_of_rating",
             "panel_or_pod_binding"]
 BUDGET_S = {"quick": 240, "thorough": 3000}
 VLL = 120.0 * math.sqrt(3.0)
@@ -83,8 +83,14 @@ def cases(seed, tier):
             capsets = [("default", defaults), ("scaled", tuple(c / 3 for c in defaults)), ("scaled", tuple(c * 2 for c in defaults))]
             for _ in range(reps):
                 capsets.append(("scaled", tuple(round(c * rng.uniform(0.15, 3.0), 2) for c in defaults)))
+            # a transformer modelled as out of service / the first point of a capacity sweep: rating exactly 0 (int, float), and tiny
+            zero = rng.choice([0, 0.0])
+            if len(defaults) == 1:
+                capsets += [("zero", (zero,)), ("scaled", (rng.choice([0.001, 0.5]),))]
+            else:
+                capsets += [("zero", (zero, defaults[1])), ("zero", (defaults[0], zero)), ("scaled", (0.5, 0.001))]
             for tag, caps in capsets:
-                for r in range(reps):
+                for r in range(reps if tag != "zero" else 1):
                     out.append({"site": site, "basic": basic, "caps": list(caps), "captag": tag, "ndirs": nd, "seed": rng.randrange(1 << 30),
                                 "sim": r == 0, "alias": (rng.choice(["kw", "pos"]) if site == "caltech" and r == 1 else None)})
     return out
@@ -111,17 +117,18 @@ def judge_schedule(obs, net, W, ids, ang, s, wit, how):
     for name, member, cap in W["transformers"]:
         mem = [i for i, x in enumerate(ids) if member(x)]
         P = VLL * math.fsum(s[i] for i in mem) / 1000.0
-        if not P <= cap * (1 + 1e-6):
+        # (absolute slack: the network's own 1e-5 A tolerance on three 120 V lines is 3.6e-6 kW; it matters only for ratings near 0)
+        if not P <= cap * (1 + 1e-6) + 1e-5:
             obs.violate("transformer_power_above_rating", f"{how}: accepted schedule draws {P:.4f} kW through {name or 'the'} transformer rated "
-                        f"{cap} kW (ratio {P / cap:.5f})", power_kw=P, rating_kw=cap, schedule={ids[i]: s[i] for i in mem if s[i]}, **wit)
-        if P >= 0.99 * cap:
+                        f"{cap} kW (ratio {P / cap if cap else math.inf:.5f})", power_kw=P, rating_kw=cap, schedule={ids[i]: s[i] for i in mem if s[i]}, **wit)
+        if P >= 0.99 * cap and cap > 0:
             obs.ev("transformer_power_within_1pct_of_rating")
         lim = cap * 1000.0 / 3.0 / 120.0
         for ph, I in zip("abc", line_currents(s, ang, mem)):
             if not abs(I) <= lim + tol(lim):
                 obs.violate("secondary_line_current_above_rating", f"{how}: {name}secondary line {ph}: {abs(I):.4f} A > {lim:.4f} A",
                             line=ph, current=abs(I), limit=lim, schedule={ids[i]: s[i] for i in mem if s[i]}, **wit)
-            if abs(I) >= lim * (1 - 1e-3):
+            if abs(I) >= lim * (1 - 1e-3) and lim > 0:
                 tight = True
     for name, pod, lim in W["pods"]:
         tot = math.fsum(s[ids.index(x)] for x in pod)
@@ -136,7 +143,7 @@ def judge_schedule(obs, net, W, ids, ang, s, wit, how):
             if not abs(I) <= lim + tol(lim):
                 obs.violate("panel_line_current_above_rating", f"{how}: {name} line {ph}: {abs(I):.4f} A > {lim} A", panel=name, line=ph,
                             current=abs(I), schedule={ids[i]: s[i] for i in mem if s[i]}, **wit)
-            if abs(I) >= lim * (1 - 1e-3):
+            if abs(I) >= lim * (1 - 1e-3) and lim > 0:
                 tight = True
                 obs.ev("panel_or_pod_binding")
     return tight
@@ -282,7 +289,8 @@ def run_case(case, obs):
             obs.nontrivial([obs.case_hash, k])
         for name, member, cap in W["transformers"]:
             P = VLL * sum(float(s[i]) for i, x in enumerate(ids) if member(x)) / 1000.0
-            max_ratio = max(max_ratio, P / cap)
+            if cap > 0:
+                max_ratio = max(max_ratio, P / cap)
     # ---- multi-period schedules: whatever matrix the network accepts, every one of its periods must respect the ratings
     mode["linear"] = False
     for _ in range(min(12, len(accepted_pts))):
